@@ -3,11 +3,11 @@
 package kcp
 
 import (
-	"os"
 	"errors"
 	"fmt"
 	"io"
 	"net"
+	"os"
 	"strings"
 	"time"
 
@@ -80,6 +80,10 @@ func vfC13Scenarios() []vfC13Scn {
 	return []vfC13Scn{
 		// ---- Read
 		{name: "Read/data-arrives", target: "session", calls: []vfCall{R(0, 0, "data", 20*ms, 20*ms+slack)}, events: []vfEv{{20 * ms, "data1", 0}}},
+		// a datagram whose first segment is fine and whose rest does not parse (Input reports an error AFTER applying the first segment)
+		{name: "Read/data-arrives-followed-by-a-foreign-segment-in-the-datagram", target: "session", calls: []vfCall{R(0, 0, "data", 20*ms, 20*ms+slack)}, events: []vfEv{{20 * ms, "data1+foreignconv", 0}}},
+		{name: "Read/data-arrives-followed-by-an-unknown-command-in-the-datagram", target: "session", calls: []vfCall{R(0, 0, "data", 20*ms, 20*ms+slack)}, events: []vfEv{{20 * ms, "data1+badcmd", 0}}},
+		{name: "Read/data-arrives-followed-by-a-truncated-segment-in-the-datagram", target: "session", calls: []vfCall{R(0, 0, "data", 20*ms, 20*ms+slack)}, events: []vfEv{{20 * ms, "data1+truncated", 0}}},
 		{name: "Read/deadline-set-before", target: "session", calls: []vfCall{R(0, 50*ms, "timeout", 50*ms, 50*ms+slack)}},
 		{name: "Read/deadline-in-the-past-before", target: "session", calls: []vfCall{R(5*ms, -10*ms, "timeout", 5*ms, 5*ms+slack)}},
 		{name: "Read/deadline-set-while-blocked", target: "session", calls: []vfCall{R(0, 0, "timeout", 50*ms, 50*ms+slack)}, events: []vfEv{{10 * ms, "SetReadDeadline", 40 * ms}}},
@@ -111,6 +115,7 @@ func vfC13Scenarios() []vfC13Scn {
 			calls: []vfCall{{op: "Read", want: "data", wantN: 2, notAfter: far}, {op: "Read", startAt: 5 * ms, want: "data", wantN: 6, notBefore: 5 * ms, notAfter: far}, R(10*ms, 0, "closed", 10*ms, 10*ms+slack)}},
 		// ---- Write (send window 2, two segments already outstanding)
 		{name: "Write/window-opens", target: "session", sndWnd: 2, pre: []string{"fill"}, calls: []vfCall{W(0, 0, "ok", 20*ms, 35*ms)}, events: []vfEv{{20 * ms, "ack1", 0}}},
+		{name: "Write/window-opens-by-an-ack-followed-by-a-foreign-segment", target: "session", sndWnd: 2, pre: []string{"fill"}, calls: []vfCall{W(0, 0, "ok", 20*ms, 20*ms+slack)}, events: []vfEv{{20 * ms, "ack1+foreignconv", 0}}},
 		{name: "Write/deadline-set-before", target: "session", sndWnd: 2, pre: []string{"fill"}, calls: []vfCall{W(0, 50*ms, "timeout", 50*ms, 50*ms+slack)}},
 		{name: "Write/deadline-set-while-blocked", target: "session", sndWnd: 2, pre: []string{"fill"}, calls: []vfCall{W(0, 0, "timeout", 50*ms, 50*ms+slack)}, events: []vfEv{{10 * ms, "SetWriteDeadline", 40 * ms}}},
 		{name: "Write/deadline-set-while-blocked-via-SetDeadline", target: "session", sndWnd: 2, pre: []string{"fill"}, calls: []vfCall{W(0, 0, "timeout", 50*ms, 50*ms+slack)}, events: []vfEv{{10 * ms, "SetDeadline", 40 * ms}}},
@@ -121,6 +126,11 @@ func vfC13Scenarios() []vfC13Scn {
 		{name: "Write/deadline-set-zero-set", target: "session", sndWnd: 2, pre: []string{"fill"}, calls: []vfCall{W(0, 50*ms, "timeout", 80*ms, 80*ms+slack)}, events: []vfEv{{10 * ms, "SetWriteDeadline", 0}, {20 * ms, "SetWriteDeadline", 60 * ms}}},
 		{name: "Write/close-while-blocked", target: "session", sndWnd: 2, pre: []string{"fill"}, calls: []vfCall{W(0, 0, "closed", 15*ms, 15*ms+slack)}, events: []vfEv{{15 * ms, "Close", 0}}},
 		{name: "Write/socket-error-while-blocked", target: "session", sndWnd: 2, pre: []string{"fill"}, calls: []vfCall{W(0, 0, "error", 15*ms, 40*ms)}, events: []vfEv{{15 * ms, "writeerr", 0}}},
+		// one transient error at the k-th datagram from now: the two outstanding segments fill a datagram each, so their
+		// retransmission is one batch of two datagrams (k=1: head of a batch, k=2: inside a batch, k=3: head of the next batch)
+		{name: "Write/one-socket-error-at-datagram-1-while-blocked", target: "session", sndWnd: 2, pre: []string{"fillbig"}, calls: []vfCall{W(0, 0, "error", 15*ms, 2*time.Second)}, events: []vfEv{{15 * ms, "writeerr-once-1", 0}}},
+		{name: "Write/one-socket-error-at-datagram-2-while-blocked", target: "session", sndWnd: 2, pre: []string{"fillbig"}, calls: []vfCall{W(0, 0, "error", 15*ms, 2*time.Second)}, events: []vfEv{{15 * ms, "writeerr-once-2", 0}}},
+		{name: "Write/one-socket-error-at-datagram-3-while-blocked", target: "session", sndWnd: 2, pre: []string{"fillbig"}, calls: []vfCall{W(0, 0, "error", 15*ms, 2*time.Second)}, events: []vfEv{{15 * ms, "writeerr-once-3", 0}}},
 		{name: "Write/two-writers-window-opens-by-two", target: "session", sndWnd: 2, pre: []string{"fill"}, calls: []vfCall{W(0, 0, "ok", 20*ms, 35*ms), W(0, 0, "ok", 20*ms, 35*ms)}, events: []vfEv{{20 * ms, "ack2", 0}}},
 		{name: "Write/window-enlarged-while-blocked", target: "session", sndWnd: 2, pre: []string{"fill"}, calls: []vfCall{W(0, 0, "ok", 20*ms, 35*ms)}, events: []vfEv{{20 * ms, "growwnd", 0}}},
 		{name: "Write/two-writers-window-enlarged", target: "session", sndWnd: 2, pre: []string{"fill"}, calls: []vfCall{W(0, 0, "ok", 20*ms, 45*ms), W(0, 0, "ok", 20*ms, 45*ms)}, events: []vfEv{{20 * ms, "growwnd", 0}}},
@@ -262,6 +272,15 @@ func vfC13Run(sc vfC13Scn, async bool) explore.RunFunc {
 					csock.inject(laddr, fecPkts[2])
 				case "data1":
 					csock.inject(laddr, vfPush(0, []byte("first")))
+				case "data1+foreignconv":
+					csock.inject(laddr, append(vfPush(0, []byte("first")), make([]byte, 24)...))
+				case "data1+badcmd":
+					csock.inject(laddr, append(vfPush(0, []byte("first")), wire.EncodeSegment(wire.Seg{Conv: vfConv, Cmd: 99, Wnd: 32}, -1)...))
+				case "data1+truncated": // a PUSH header that announces more payload than the datagram carries
+					x := vfPush(1, []byte("second-message"))
+					csock.inject(laddr, append(vfPush(0, []byte("first")), x[:len(x)-5]...))
+				case "ack1+foreignconv":
+					csock.inject(laddr, append(vfAck(0, 1), make([]byte, 24)...))
 				case "data1b":
 					csock.inject(laddr, vfPush(1, []byte("second")))
 				case "data2": // two messages in one datagram
@@ -278,6 +297,18 @@ func vfC13Run(sc vfC13Scn, async bool) explore.RunFunc {
 							bad("C13:setup", "filling the window failed: %v", err)
 						}
 					}
+				case "fillbig": // segments that fill a datagram each: a retransmission of both is a batch of two datagrams
+					for i := 0; i < sc.sndWnd; i++ {
+						if _, err := sess.Write(make([]byte, 1200)); err != nil {
+							bad("C13:setup", "filling the window failed: %v", err)
+						}
+					}
+				case "writeerr-once-1":
+					csock.failWriteAt(1, errVfInjected)
+				case "writeerr-once-2":
+					csock.failWriteAt(2, errVfInjected)
+				case "writeerr-once-3":
+					csock.failWriteAt(3, errVfInjected)
 				case "ack1":
 					csock.inject(laddr, vfAck(0, 1))
 				case "ack2":
